@@ -1298,8 +1298,9 @@ class Signature:
                     composite,
                     ctx,
                     typevar_values,
-                    # If position is None we can't narrow so don't bother.
-                    is_overload=is_overload and position is not None,
+                    # We can only narrow arguments that were passed directly
+                    # as a positional or keyword argument.
+                    is_overload=is_overload and isinstance(position, (int, str)),
                 )
             )
             if tv_map is None:
